@@ -955,6 +955,11 @@ func lockShape(fi *funcInfo, writes map[string]bool, depth int) []string {
 					case "node", "methods", "notFound", "trace", "methodIndex", "handlers", "children", "indexes", "segment":
 						evs = append(evs, fmt.Sprintf(".read %s", strconv.Quote(fi.recv+"."+x.Sel.Name)))
 					}
+				} else if tv, ok := fi.info.Types[x.X]; ok && fi.recv == "Tree" && namedOf(tv.Type) == "node" {
+					// a field of a tree node reached through a local variable (curr.parent, node.segment, child.handlers …)
+					if sel := fi.info.Selections[x]; sel != nil && sel.Kind() == types.FieldVal {
+						evs = append(evs, fmt.Sprintf(".read %s", strconv.Quote("nodeField:"+x.Sel.Name)))
+					}
 				}
 			}
 			return true
